@@ -284,6 +284,9 @@ def _structured_obj(I: Interp, ci: ClassInfo, name: str, spans: Dict[int, tuple]
         # the wrapped record is a plain SeqRecord (no topology annotation: searched circularly, cannot be rotated)
         rec = ARec(False, [Piece("W:" + name, ZERO, N)], Term(name), ctor="input")
     rec.attrs["id"] = Term("id", Term(name))
+    # (an accessor that rotates the record through a helper of its own instead of `<<` walks the features: one generic
+    # feature without location stands for them -- where features go is K5's business, not the fragment's letters)
+    rec.attrs["feature_coll"] = ACollection("features", lambda: AStruct("SeqFeature", location=None, type=Term("ftype"), id=Term("fid"), qualifiers=Term("fquals")))
     sm_cls = I.p.get_class("moclo.regex.SeqMatch")
     rm = AReMatch(ASeq("str", [Piece("W:" + name, ZERO, N), Piece("W:" + name, ZERO, N)]), spans)
     from .kernels2 import new_seqmatch
@@ -329,7 +332,10 @@ def frag_hooks(p) -> dict:
             return I.kernel_args[0].attrs.get("_match")
 
         hooks[regex_getter(p).qualname] = get_regex
-        hooks["moclo.regex.DNARegex.search"] = search
+        from .roles import search_entries
+
+        for raw_, _ps, _skip in search_entries(p):
+            hooks[raw_.qualname] = search
     except AnalysisError:
         pass
     return hooks
